@@ -405,7 +405,29 @@ def r19_8_code_slice_zero_pad(repo: Repo, rep: Report):
     rep.check("R19.8", bool(stops) and src(stops[0].value) in ("start + size", "size + start"), m, stops[0] if stops else fn, src(stops[0]) if stops else "stop = ?", "Contract.slice(start, size) must read start .. start+size")
 
 
+def r19_9_fast_prefix(repo: Repo, rep: Report):
+    rep.rule("R19.9", "the concrete fast prefix is exactly the bytes of the first concrete chunk (never the chunk's backing buffer)")
+    m, init = repo.fn("contract.Contract.__init__")
+    stores = [s for s in body_walk(init) if isinstance(s, ast.Assign) and src(s.targets[0]) == "self._fastcode"]
+    vals = sorted(src(s.value) for s in stores)
+    ok = vals == ["None", "first_chunk.unwrap()"]
+    rep.check("R19.9", ok, m, stores[-1] if stores else init, f"Contract.__init__: self._fastcode in {vals}", "the fast prefix must be None or first_chunk.unwrap(): `.data` is the backing buffer, which may extend past the chunk (a prefix view of a larger buffer), so reads past the end of the code would see buffer bytes instead of zeros and JUMPDESTs beyond the end become valid")
+    for s in stores:
+        if src(s.value) == "None":
+            continue
+        gs = guard_set(m, s)
+        ok = "isinstance(first_chunk, ConcreteChunk)" in gs and "code.chunks" in gs
+        rep.check("R19.9", ok, m, s, f"{src(s)} under {sorted(gs)}", "only a concrete first chunk may serve as the fast prefix")
+    fc = [src(v) for s in body_walk(init) if isinstance(s, ast.Assign) and src(s.targets[0]) == "first_chunk" for v in [s.value]]
+    rep.check("R19.9", fc == ["code.chunks[0]"], m, init, f"first_chunk = {fc}", "the prefix must start at offset 0 of the code")
+    # the program counter written by a taken jump (shared with C01: R01.3 checks the operands of advance(pc=...))
+    from hsa.rules.c01 import r01_2_3_arm_semantics
+
+    r01_2_3_arm_semantics(repo, rep)
+
+
 RULES = [
+    r19_9_fast_prefix,
     r19_1_insn_len,
     r19_2_scanner_decoder,
     r19_3_jump_targets,
